@@ -32,7 +32,7 @@ def parseCPod (idx : Nat) (t : String) : CPod :=
            owner := .none, selMatch := false, member := false }
 
 def parseKind : String → ErrKind
-  | "conflict" => .conflict | "conflictgone" => .conflict | "notfound" => .notFound | "exists" => .alreadyExists | "invalid" => .invalid | _ => .other
+  | "conflict" => .conflict | "conflictgone" => .conflict | "conflictrest" => .conflict | "notfound" => .notFound | "exists" => .alreadyExists | "invalid" => .invalid | _ => .other
 
 structure SyCase where
   i : SyncIn
@@ -209,6 +209,16 @@ def stepSync (cas obs : String) : String :=
     -- a history holding a revision whose data cannot be applied (JSON, but not a StatefulSet once patched): the model has
     -- no such revisions; the case is judged on the real code only: no panic, and when the stored current revision is such a
     -- revision and the reconcile gets as far as resolving it, the sync reports an error
+    -- a Conflict on a revision Update answered the way the REST client does (an EMPTY object next to the error, where the fake
+    -- clientset of the other cases gives nil): `updateControllerRevision` adopts that object, every further attempt is nameless
+    -- and never leaves the client; the model describes the fake's behaviour (the retry succeeds), so this variant is judged on
+    -- the real code only: the failure is reported, nothing panics, the caches stay untouched
+    if (cas.splitOn "@conflictrest").length > 1 then
+      let mon := verdict [
+        ("C15.nopanic", fieldD obs' "out" != "panic"),
+        ("C09.reported", fieldD obs' "out" == "err"),
+        ("C10.cache", fieldD obs' "mut" != "1")]
+      s!"{obs'}\t{mon}\trestclient" else
     let unappliable (d : String) : Bool := d == "R" || d == "S"
     if c.i.store.any (fun r => unappliable r.data) then
       let hit := c.i.store.any (fun r => r.name == c.i.stored.currentRev && unappliable r.data && (r.selMatch || r.marker) && r.owner != .other)
